@@ -19,7 +19,7 @@ pub struct PairCase {
 
 pub fn pair_strategy(depth: u32, max_alts_b: usize) -> BoxedStrategy<PairCase> {
     vpool()
-        .prop_flat_map(move |pool| (expr(pool.clone(), depth, 3), expr(pool.clone(), depth, max_alts_b), extra(pool)))
+        .prop_flat_map(move |pool| (expr_with_any(pool.clone(), depth, 3), expr_with_any(pool.clone(), depth, max_alts_b), extra(pool)))
         .prop_map(|(a, b, extra)| PairCase { a, b, extra })
         .boxed()
 }
